@@ -173,7 +173,15 @@ impl Arithmetic for i128 {
 /// conversion into `CanonicalAssets` is infallible and would panic otherwise).
 fn has_plain_amounts(expr: &Expression) -> bool {
     match expr {
-        Expression::Assets(x) => x.iter().all(|asset| asset.amount.as_number().is_some()),
+        Expression::Assets(x) => {
+            x.iter().all(|asset| asset.amount.as_number().is_some())
+                // entries of one class are summed by the conversion: the total must fit too
+                && x.iter()
+                    .try_fold(CanonicalAssets::empty(), |acc, asset| {
+                        acc.checked_add(asset.clone().into())
+                    })
+                    .is_some()
+        }
         _ => true,
     }
 }
